@@ -662,6 +662,7 @@ def option_sets(scratch):
         "read-trigger": ["-T", "fd@read=proc/statm", "-T", "fc@read=proc/statm", "-T", "f1@read=proc/statm", "-T", "f3@read=page-fault"],
         "args-g": ["-A", "g@arg1/s", "-A", "q@arg1/s"],
         "args-f8": ["-A", "f8@arg1/s"],
+        "recover-rec": ["-T", "rec@recover"],
         "args-fa": ["-A", "fa@arg1/s"],
     }
 
@@ -680,7 +681,27 @@ def have_avx512():
         return False
 
 
+MULTI = {}      # name -> corpus entry with "files" + "build" (several differently built objects)
+
+
+def compile_multi(workdir, name, entry):
+    d = os.path.join(workdir, name + ".d")
+    exe = os.path.join(d, "prog")
+    if os.path.exists(exe):
+        return exe
+    os.makedirs(d, exist_ok=True)
+    for fn, text in entry["files"].items():
+        open(os.path.join(d, fn), "w").write(text)
+    for cmd in entry["build"]:
+        rc, out, err = sh(cmd, timeout=120, cwd=d)
+        if rc != 0:
+            raise RuntimeError("corpus witness %s does not build (%s): %s" % (name, cmd, err[-800:]))
+    return exe
+
+
 def compile_prog(workdir, name, src, mode, opt, cflags=()):
+    if name in MULTI:
+        return compile_multi(workdir, name, MULTI[name])
     c = os.path.join(workdir, name + ".c")
     if not os.path.exists(c):
         open(c, "w").write(src)
@@ -770,7 +791,7 @@ def e2e_plan(ctx):
     nprog = ctx.n(10, 60)
     per = ctx.n(10, 24)
     osets = [o for o in option_sets(ctx.scratch) if not o.startswith("args-") and not o.startswith("max-stack-")
-             and o not in ("finish", "script-fp")]
+             and o not in ("finish", "script-fp", "recover-rec")]
     for pi in range(nprog):
         threads = 4 if pi % 3 == 1 else 1
         classes = None if pi % 2 == 0 else rng.sample(list(G.CLASSES), 3) + ["vector"]
@@ -815,6 +836,8 @@ def e2e(ctx, objdir):
         if (c.get("needs_avx") and not have_avx()) or (c.get("needs_avx512") and not have_avx512()):
             continue
         key = "c%d" % ci
+        if "files" in c:
+            MULTI[key] = c
         sources[key] = c["source"]
         jobs.append((key, {"corpus": c["name"], "seed": c["name"], "threads": 1}, c["source"],
                      {"sigs": [c["name"]]}, c["mode"], c["opt"], c["optset"], False))
